@@ -72,7 +72,12 @@ fn date_format() -> BoxedStrategy<(String, u8, u8)> {
         5 => ("%Y%m%d".to_string(), 1, 0),
         _ => (format!("%y%m%d{w}"), 2, 0),
     });
-    prop_oneof![5 => cal3, 2 => comp, 2 => ord, 2 => iso, 2 => week, 3 => adjacent].boxed()
+    // a complete date in one form plus redundant fields of another form (they must merely agree)
+    let redundant = proptest::sample::select(vec![
+        "%Y-%m-%d #%V", "%Y-%m-%d %G-%V-%u", "%Y-%j (%G-%V-%u)", "%F %G %V %a", "%Y %U %w | %G-%V", "%d/%m/%Y %A %W/%q", "%G-%V-%u = %Y-%m-%d", "%Y-%m-%d %j %U/%W/%V",
+        "%G %V %u %j",
+    ]).prop_map(|s| (s.to_string(), 0u8, 0u8));
+    prop_oneof![5 => cal3, 2 => comp, 2 => ord, 2 => iso, 2 => week, 3 => adjacent, 2 => redundant].boxed()
 }
 fn time_format() -> BoxedStrategy<String> {
     let frac = prop_oneof![3 => Just(""), 1 => Just("%.f"), 1 => Just("%.3f"), 1 => Just("%.6f"), 1 => Just("%.9f"), 1 => Just(".%f"), 1 => Just(".%-f"), 1 => Just(",%_f")];
